@@ -14,6 +14,9 @@
 From Apko Require Import Base.Prelude Model.Caches Spec.CachesSpec Proofs.CachesProofs
   Model.CachesBridge Proofs.CachesBridgeProofs.
 From Apko Require Model.Version Model.Resolver Generated.C08Caches Proofs.ResolveProofs Proofs.ResolveProofs2 Proofs.ResolveInstallIf.
+From Apko Require Import Model.CachesClone Proofs.CachesCloneProofs Model.CachesIndex Proofs.CachesIndexProofs.
+From Apko Require Proofs.ResolveInstallIf2.
+From Coq Require Import Permutation.
 Open Scope string_scope. Open Scope list_scope.
 
 (* THE SOURCE HAS THE SHAPE THE MODEL TRANSCRIBES (regenerated from /repo on every
@@ -239,6 +242,223 @@ Example c08_install_if_chain_complete_example :
   List.map Resolver.s_raw (Resolver.k_iifs (Resolver.getp R 2)) = ["b"] /\
   List.map (ResolveProofs2.nm R) [1; 3; 2] = ["a"; "b"; "c"].
 Proof. split; [eexists _, _; vm_compute; reflexivity | split; vm_compute; reflexivity]. Qed.
+
+(* ---- session 4: install_if over a WHOLE resolution, and versioned entries ------------------ *)
+
+(* VERSIONED ENTRIES (full, with the side condition the code imposes).  An entry
+   of an install_if package is MET by member j of the dependency list either
+   literally (it is j's name) or as name=version: it has j's name and, as text,
+   j's version, its raw text is "<name>=<version>", and NO package of the universe
+   has the bare name as an install_if entry (the loop consults
+   installIfMap[name=version] only when installIfMap[name] does not exist).  One
+   call of GetPackageWithDependencies, any inputs: every install_if package all of
+   whose entries are met by members of the returned list has its name in the list.
+   c08_install_if_chain_complete is the special case "all entries literal". *)
+Theorem c08_install_if_versioned_complete : forall U w dq sel ex dq' sel' i deps,
+  let R := Resolver.new_resolver U in
+  Resolver.get_pkg R w dq sel ex = Ok (dq', sel', i, deps) ->
+  forall q, ResolveProofs.valid R q -> Resolver.k_iifs (Resolver.getp R q) <> [] ->
+    (forall e, In e (Resolver.k_iifs (Resolver.getp R q)) -> ResolveInstallIf2.met_in R deps e) ->
+    In (ResolveProofs2.nm R q) (List.map (ResolveProofs2.nm R) deps).
+Proof. exact ResolveInstallIf2.get_pkg_iif_complete_v. Qed.
+Print Assumptions c08_install_if_versioned_complete.
+
+(* [refuted] without the side condition it is false: b-v install_if b=2.0 is not
+   installed next to b-2.0 when some other package (b-any install_if b nosuch)
+   has the bare entry b; drop b-any and it is (the hypotheses of the theorem
+   above then hold: third conjunct) *)
+Theorem c08_install_if_versioned_shadowed_refuted :
+  Resolver.resolve ResolveInstallIf2.shadow_universe ["w"] [] = Ok [1; 0] /\
+  Resolver.resolve ResolveInstallIf2.noshadow_universe ["w"] [] = Ok [1; 2; 0] /\
+  (let R := Resolver.new_resolver ResolveInstallIf2.noshadow_universe in
+   forall e, In e (Resolver.k_iifs (Resolver.getp R 2)) -> ResolveInstallIf2.met_in R [1; 2] e) /\
+  (let R := Resolver.new_resolver ResolveInstallIf2.shadow_universe in
+   forall e, In e (Resolver.k_iifs (Resolver.getp R 2)) ->
+     Resolver.s_name e = ResolveProofs2.nm R 1 /\ Resolver.s_version e = ResolveInstallIf2.ver R 1 /\
+     Resolver.s_raw e = ResolveInstallIf2.vkey R 1 /\ Resolver.alookup (ResolveProofs2.nm R 1) (Resolver.r_iif R) <> None).
+Proof. exact ResolveInstallIf2.versioned_key_shadowed. Qed.
+Print Assumptions c08_install_if_versioned_shadowed_refuted.
+
+(* A WHOLE RESOLUTION (full).  GetPackagesWithDependencies runs the install_if loop
+   once per requested package, on that request's dependency list.
+   [resolve_trace] returns these lists (one per entry of the world, install_if
+   additions included).  Whenever the resolution succeeds: every member of every
+   list is installed, and every install_if package ALL of whose entries are met
+   inside ONE request's list is installed. *)
+Theorem c08_install_if_request_complete : forall U world dq0 l,
+  let R := Resolver.new_resolver U in
+  Resolver.resolve U world dq0 = Ok l ->
+  exists tr, ResolveInstallIf2.resolve_trace U world dq0 = Ok tr /\ List.length tr = List.length world /\
+    forall deps, In deps tr ->
+      (forall j, In j deps -> In (ResolveProofs2.nm R j) (List.map (ResolveProofs2.nm R) l)) /\
+      forall q, ResolveProofs.valid R q -> Resolver.k_iifs (Resolver.getp R q) <> [] ->
+        (forall e, In e (Resolver.k_iifs (Resolver.getp R q)) -> ResolveInstallIf2.met_in R deps e) ->
+        In (ResolveProofs2.nm R q) (List.map (ResolveProofs2.nm R) l).
+Proof. exact ResolveInstallIf2.request_complete. Qed.
+Print Assumptions c08_install_if_request_complete.
+(* w -> a, b; j install_if a b: the list of the request w is [a b j] *)
+Example c08_install_if_request_complete_example :
+  Resolver.resolve ResolveInstallIf2.cross_universe ["w"] [] = Ok [2; 3; 4; 5] /\
+  ResolveInstallIf2.resolve_trace ResolveInstallIf2.cross_universe ["w"] [] = Ok [[2; 3; 4]].
+Proof. destruct ResolveInstallIf2.cross_request_not_installed as [_ [_ [_ [_ [A B]]]]]. exact (conj A B). Qed.
+
+(* [refuted] ... but NOT across requests, and not when the trigger is the requested
+   package itself (quirks of the code, in the model).  (1) w1 -> a, w2 -> b,
+   j install_if a b, world [w1; w2]: a and b are installed, j is not - each
+   request's list holds one trigger.  (2) a-x install_if a, world [a]: a is
+   installed, a-x is not - a requested package is not a member of its own
+   dependency list; world [w] with w -> a installs it. *)
+Theorem c08_install_if_cross_request_refuted :
+  (exists U world l q,
+     let R := Resolver.new_resolver U in
+     Resolver.resolve U world [] = Ok l /\ ResolveProofs.valid R q /\ Resolver.k_iifs (Resolver.getp R q) <> [] /\
+     (forall e, In e (Resolver.k_iifs (Resolver.getp R q)) -> In (Resolver.s_raw e) (List.map (ResolveProofs2.nm R) l)) /\
+     ~ In (ResolveProofs2.nm R q) (List.map (ResolveProofs2.nm R) l) /\ List.length world = 2) /\
+  (exists U world l q,
+     let R := Resolver.new_resolver U in
+     Resolver.resolve U world [] = Ok l /\ ResolveProofs.valid R q /\ Resolver.k_iifs (Resolver.getp R q) <> [] /\
+     (forall e, In e (Resolver.k_iifs (Resolver.getp R q)) -> In (Resolver.s_raw e) (List.map (ResolveProofs2.nm R) l)) /\
+     ~ In (ResolveProofs2.nm R q) (List.map (ResolveProofs2.nm R) l) /\ List.length world = 1).
+Proof.
+  split.
+  - exists ResolveInstallIf2.cross_universe, ["w1"; "w2"], [2; 0; 3; 1], 4. cbn zeta.
+    destruct ResolveInstallIf2.cross_request_not_installed as [A _]. split; [exact A|].
+    split; [vm_compute; repeat constructor|]. split; [vm_compute; discriminate|]. split.
+    + intros e He. vm_compute in He. destruct He as [<-|[<-|[]]]; vm_compute; tauto.
+    + split; [|reflexivity]. vm_compute. intros [H|[H|[H|[H|[]]]]]; discriminate.
+  - exists ResolveInstallIf2.itself_universe, ["a"], [0], 1. cbn zeta.
+    destruct ResolveInstallIf2.requested_itself_not_trigger as [A _]. split; [exact A|].
+    split; [vm_compute; repeat constructor|]. split; [vm_compute; discriminate|]. split.
+    + intros e He. vm_compute in He. destruct He as [<-|[]]. vm_compute. tauto.
+    + split; [|reflexivity]. vm_compute. intros [H|[]]. discriminate.
+Qed.
+Print Assumptions c08_install_if_cross_request_refuted.
+
+(* ---- session 4: the resolver cache as an object, Clone field by field, the index cache ---- *)
+
+(* THE SOURCE HAS THE SHAPE THE NEW MODELS TRANSCRIBE (regenerated on every run):
+   resolverCache.Get looks up, builds from and fills under THE LIST AS GIVEN;
+   indexCache.get records the modification time under the key the parsed result
+   is stored under and re-reads when there is no recorded time or the file's time
+   is After it; GetRepositoryIndexes has one slot per repository line, goroutine
+   i writes slot i, nil slots are deleted after Wait, the slots are returned. *)
+Theorem c08_source_shape_keys_and_index_cache :
+  C08Caches.resolver_get_key = ["find:the-list-as-given"; "build:the-list-as-given"; "fill:the-list-as-given"] /\
+  C08Caches.index_modtimes_keys = ["entry-key"; "entry-key"] /\
+  C08Caches.index_refresh_condition = "no-recorded-time-or-file-time-after-recorded" /\
+  C08Caches.get_indexes_collect = ["slots:one-per-line"; "write:slot-of-own-line"; "holes:nil-deleted"; "returns:the-slots"].
+Proof. repeat split; reflexivity. Qed.
+Print Assumptions c08_source_shape_keys_and_index_cache.
+
+(* CLONE PURITY.  [clone_by_shape C08Caches.clone_shape] is the clone function READ
+   OFF the struct literal PkgResolver.Clone returns (field by field: shared /
+   maps.Clone / fresh-empty); the resolver trie is keyed by the list as given.
+   After EVERY history of earlier resolutions a resolution through the cached and
+   cloned resolver returns what a resolution through a FRESH resolver returns -
+   newPkgResolver and disqualifyDifference in an empty process, no cache, no
+   clone.  (Frame hypothesis on the core as in c08_history_independent; grouping
+   proviso: C08-F2.) *)
+Theorem c08_clone_fresh : forall mk_names mk_iif dq_diff dkey R core,
+  CoreWritesOnlyOwned R core -> CoreKeepsLength R core -> CoreReadsThroughHandles R core ->
+  forall hist c,
+    GroupingCompatible dq_diff dkey hist c ->
+    result_after_g mk_names mk_iif dq_diff dkey R core (fun l => l) (clone_by_shape C08Caches.clone_shape) hist c =
+    result_direct mk_names mk_iif dq_diff R core c.
+Proof. exact clone_fresh. Qed.
+Print Assumptions c08_clone_fresh.
+(* the hypotheses are satisfiable, and the generalised layer is the layer of c08_history_independent *)
+Example c08_clone_fresh_example :
+  (forall s h, clone_by_shape C08Caches.clone_shape s h = clone_resolver s h) /\
+  GroupingCompatible ex_dq ex_key [ex_call ["a"]] (ex_call ["a"; "b"]) /\
+  result_after_g ex_names ex_none ex_dq ex_key _ toy_core (fun l => l) (clone_by_shape C08Caches.clone_shape) [ex_call ["a"]] (ex_call ["a"; "b"])
+    = [Some (0, 0); Some (0, 2)].
+Proof. split; [exact clone_by_shape_code | split; [intros c' _ _; reflexivity | vm_compute; reflexivity]]. Qed.
+
+(* [refuted] with `selected: p.selected` in the literal the statement is false (the
+   second resolution skips what the first selected) - while a COPY of the
+   prototype's selected would do as well as the empty literal *)
+Theorem c08_clone_shared_selected_refuted :
+  exists hist c,
+    result_after_g ex_names ex_none ex_dq ex_key _ toy_core (fun l => l)
+      (clone_by_shape [("indexes", "shared"); ("installIfMap", "maps.Clone"); ("nameMap", "maps.Clone"); ("selected", "shared")]) hist c
+    <> result_direct ex_names ex_none ex_dq _ toy_core c.
+Proof.
+  exists [ex_call ["a"]], (ex_call ["a"; "b"]). destruct shared_selected_leaks as [A B].
+  unfold shape_shared_selected in A. rewrite A, B. discriminate.
+Qed.
+Print Assumptions c08_clone_shared_selected_refuted.
+
+(* [refuted] THE ORDER OF THE INDEX LIST IS PART OF THE KEY.  With the trie keyed by a
+   sorted copy of the list (the resolver still built from the list as given)
+   [0;1] and [1;0] share a slot: two indexes carry "base", the call [1;0] after
+   the call [0;1] takes it from index 0, a fresh resolver from index 1 - as the
+   layer keyed by the list as given does (third conjunct). *)
+Theorem c08_resolver_cache_sorted_key_refuted :
+  result_after_g ord_names ex_none ex_dq ex_key _ toy_core sorted_key (clone_by_shape C08Caches.clone_shape) [ord_call [0; 1]] (ord_call [1; 0])
+    <> result_direct ord_names ex_none ex_dq _ toy_core (ord_call [1; 0]) /\
+  result_after_g ord_names ex_none ex_dq ex_key _ toy_core (fun l => l) (clone_by_shape C08Caches.clone_shape) [ord_call [0; 1]] (ord_call [1; 0])
+    = result_direct ord_names ex_none ex_dq _ toy_core (ord_call [1; 0]).
+Proof. destruct sorted_key_leaks as [A [B C]]. rewrite A, B, C. split; [discriminate | reflexivity]. Qed.
+Print Assumptions c08_resolver_cache_sorted_key_refuted.
+
+(* THE INDEX CACHE IS TRANSPARENT (local repositories).  For every parser, every
+   initial set of files and every history of rewrites of index files and
+   requests under any cache entries (path x verification context x repository
+   name): each request returns what a process that has never seen the file
+   returns - the parse of the file's present bytes under the request's own key,
+   or "missing" - PROVIDED every rewrite moves the file's modification time
+   strictly forward (see the next theorem for why the proviso cannot be dropped). *)
+Theorem c08_index_cache_fresh : forall (C I : Type) (parse : ekey -> C -> option I) fs evs,
+  mtimes_increase fs evs ->
+  ic_run parse fs ic_empty evs = fresh_run parse fs evs.
+Proof. exact ic_fresh. Qed.
+Print Assumptions c08_index_cache_fresh.
+(* satisfiable: load under "", rewrite with a later time, load under "local", "" again *)
+Example c08_index_cache_fresh_example :
+  mtimes_increase [] four_steps /\
+  ic_run w_parse [] ic_empty four_steps = [GGot (Some ("", "v1")); GGot (Some ("local", "v2")); GGot (Some ("", "v2"))].
+Proof. destruct path_keyed_stale as [A [_ B]]. exact (conj A B). Qed.
+
+(* [refuted] C08-F5.  A file rewritten with an UNCHANGED modification time keeps being
+   served from the cache (`mod.After(before)`): write v1 at time 5, request, write
+   v2 at time 5, request - the cache answers v1, a fresh process v2.  Replayed on
+   the real code: indexhist corpus/finding/F5. *)
+Theorem c08_index_cache_same_mtime_refuted :
+  exists evs, ic_run w_parse [] ic_empty evs <> fresh_run w_parse [] evs.
+Proof.
+  exists [IWrite 0 5%Z "v1"; IGet (w_key ""); IWrite 0 5%Z "v2"; IGet (w_key "")].
+  destruct ic_same_mtime_stale as [A B]. rewrite A, B. discriminate.
+Qed.
+Print Assumptions c08_index_cache_same_mtime_refuted.
+
+(* [refuted] NON-VACUITY of "the time is recorded PER CACHE ENTRY": with the time recorded
+   per path (and an entry without a result parsed once) c08_index_cache_fresh
+   fails although the times increase - load under X, rewrite, load under Y, X again *)
+Theorem c08_index_cache_path_keyed_times_refuted :
+  mtimes_increase [] four_steps /\
+  ic_run_path_keyed [] ic_empty four_steps <> fresh_run w_parse [] four_steps.
+Proof.
+  destruct path_keyed_stale as [A [B _]]. split; [exact A|]. rewrite B. vm_compute. discriminate.
+Qed.
+Print Assumptions c08_index_cache_path_keyed_times_refuted.
+
+(* THE INDEX LIST HAS THE ORDER OF THE REPOSITORY LINES UNDER EVERY SCHEDULE.
+   GetRepositoryIndexes starts one goroutine per line; whatever the order in
+   which they run (local branch: take the cache's mutex), the list returned is
+   the per-line answers in the order of the lines, missing local repositories
+   dropped - and the cache left behind answers every later request as the cache
+   before the call would have.  (The order matters: a name-version present in two
+   repositories is installed from the one listed first.) *)
+Theorem c08_index_list_schedule_independent : forall (C I : Type) (parse : ekey -> C -> option I) fs x keys sched,
+  Permutation sched (seq 0 (List.length keys)) ->
+  snd (get_indexes parse fs x keys sched) = in_repo_order parse fs x keys /\
+  (forall k, snd (ic_get parse fs (fst (get_indexes parse fs x keys sched)) k) = snd (ic_get parse fs x k)).
+Proof. exact get_indexes_schedule_independent. Qed.
+Print Assumptions c08_index_list_schedule_independent.
+Example c08_index_list_schedule_independent_example :
+  Permutation [1; 0] (seq 0 (List.length [w_key "a"; w_key "b"])) /\
+  snd (get_indexes w_parse [(0, (5%Z, "v1"))] ic_empty [w_key "a"; w_key "b"] [1; 0]) = Some [("a", "v1"); ("b", "v1")].
+Proof. split; [apply perm_swap | vm_compute; reflexivity]. Qed.
 
 (* the boolean validator run on the implementation's observed outcomes decides
    exactly the readable statement *)
